@@ -119,7 +119,10 @@ func solveOne(o *Obligation, timeoutSec int, all bool) {
 	var r SolverResult
 	if all {
 		r = RunSolvers(q, false, timeoutSec, true, nil)
-	} else {
+	}
+	if !all || (r.Status != "unsat" && r.Status != "sat") {
+		// (thorough tier: when running every solver on the full query did not settle it, fall back to the
+		// strategy of the quick tier, which also races the pruned variants of the query)
 		// fast path: the new z3 alone for a short time, then the whole portfolio raced with the
 		// pruned variants of the query (fewer hypotheses: an unsat answer of a variant is a proof,
 		// any other answer of a variant means nothing)
